@@ -50,8 +50,9 @@ UNIT_SIZES = [1, 2, 15, 16, 17, 1000, 4096, 65537, 349525]
 
 
 class Scenario:
-    def __init__(self, ctx, k, rng):
+    def __init__(self, ctx, k, rng, plain=False):
         from lbry.blob.blob_file import BlobFile
+        self.plain = plain          # Leg B: no close()/delete(), writers opened the callers' way only
         from .detloop import DetLoop
         self.rng = rng
         self.dir = ctx.mkdir(f'c01-{k}')
@@ -168,7 +169,7 @@ class Scenario:
         rng = self.rng
         unopened = list(range(1, self.nwriters + 1))
         rng.shuffle(unopened)
-        chaos = rng.random() < 0.12
+        chaos = rng.random() < 0.12 and not self.plain
         budget = 400
         announce_at = rng.randrange(0, 6) if self.late else None
         while budget > 0:
@@ -196,7 +197,7 @@ class Scenario:
                 break
             a = rng.choice(acts)
             if a == 'open':
-                self.open_writer(unopened.pop(), guarded=rng.random() < 0.9)
+                self.open_writer(unopened.pop(), guarded=self.plain or rng.random() < 0.9)
             elif a == 'write':
                 self.write(rng.choice(live))
             elif a == 'step':
@@ -266,8 +267,37 @@ def leg_c(ctx):
             events=sum(len(t['ev']) for t in traces))
 
 
+def leg_b(ctx):
+    """exact conformance of the algorithm of BlobWrite.tla with the real objects (spec drift, never a violation)"""
+    n = 1500 if ctx.thorough else 200
+    groups = {}
+    for k in range(n):
+        sc = Scenario(ctx, 100000 + k, ctx.rng, plain=True)
+        try:
+            tr = sc.run()
+        finally:
+            sc.cleanup()
+        groups.setdefault(sc.L, []).append(tr)
+        ctx.count(('replay', sc.L, sc.U, tuple(e['event'] + str(e.get('w', '')) for e in tr['ev'])), nontrivial=sc.nwriters >= 2)
+    drift = total = 0
+    for L, traces in sorted(groups.items()):
+        cfg = tlc.make_cfg(spec='RSpec', constants=dict(W=3, L=L, DECLS=set(), MAXN=L + 1, BARE=True, CLOSEDEL=False, LATE=True),
+                           constraint=['Reached', 'Note'], postcondition='Report')
+        verdicts = tlc.validate_traces('BlobWriteReplay', cfg, traces, ctx, label=f'BlobWriteReplay-L{L}', chunk=1500, timeout=1800)
+        bad = [v for v in verdicts if not v['accepted']]
+        if bad:
+            raise MachineryError(f'replay trace not consumed at {bad[0]["matched"]} (L={L})')
+        drift += sum(1 for v in verdicts if v.get('drift'))
+        total += len(traces)
+    ctx.cov['traces_validated_against_impl'] += total
+    ctx.leg('B', replayed_schedules=total, spec_drift=drift)
+    if drift:
+        print(f'NOTE: {drift} of {total} replayed schedules diverged from the algorithm of BlobWrite.tla (spec drift; the property is judged by Leg C)')
+
+
 def run(ctx):
     leg_a(ctx)
+    leg_b(ctx)
     leg_c(ctx)
     ctx.cov['rule'] = ('Leg A: all states of BlobWrite.tla in the listed configurations. Leg C: one seeded schedule per case: blob of '
                        '1-4 units x unit size 1 B..1 MiB (incl. exactly 2 MiB), declared length right/short/long, 1-3 writers each '
